@@ -151,10 +151,14 @@ fn verify_link_signature_thresholds_step(
         // For each link corresponding to a step, check that the signer key was
         // authorized by checking whether it's included in the layout.
         // Only good links are stored, to verify thresholds.
+        // The sign key of the link must be authorized for this step
+        let authorized_for_step = step.pub_keys.contains(signer_key_id);
         // The sign key of the link is not authorized in the layout
         if let Some(authorized_key) = pubkeys.get(signer_key_id) {
             let authorized_key = vec![authorized_key];
-            if link_metablock.verify(1, authorized_key).is_ok() {
+            if authorized_for_step
+                && link_metablock.verify(1, authorized_key).is_ok()
+            {
                 metablocks
                     .insert(signer_key_id.clone(), link_metablock.clone());
             }
